@@ -1304,6 +1304,8 @@ def corr_friends(ctx, corr):
 
 def correspond(ctx):
     corr = c05.correspond(ctx)
+    from harness import bodies
+    bodies.corr_class_bodies(ctx, corr)
     corr_friends(ctx, corr)
     corr_op_members(ctx, corr)
     corr_conv_ops(ctx, corr)
